@@ -46,6 +46,8 @@ type GN struct {
 	Shared map[string]int
 	priv   *GN
 	Tags   []string
+	MM     map[string]map[string]int // maps as map values: the same inner map may sit under two keys
+	ME     map[string]GEdge          // structs (holding a map and a pointer) as map values
 }
 
 type GCfg struct {
@@ -72,6 +74,7 @@ type PN struct {
 	Arr    [2]*PN
 	Shared map[string]int
 	Tags   []string
+	MM     map[string]map[string]int
 }
 
 type PCfg struct {
@@ -447,6 +450,16 @@ func genGraph(r *RNG) *GCfg {
 			nd.Shared = shared[r.Intn(len(shared))]
 		}
 		if r.Chance(25) {
+			a, b := shared[r.Intn(2)], shared[r.Intn(2)] // often the same map twice
+			nd.MM = map[string]map[string]int{"a": a, "b": b}
+			if r.Chance(30) {
+				nd.MM["c"] = map[string]int{"own": i}
+			}
+		}
+		if r.Chance(20) {
+			nd.ME = map[string]GEdge{"x": {Label: "x", To: pick(), Via: sharedM}, "y": {To: nd, Via: sharedM}}
+		}
+		if r.Chance(25) {
 			nd.priv = pick()
 		}
 		if r.Chance(25) {
@@ -526,6 +539,12 @@ func genPGraph(r *RNG) *PCfg {
 		if r.Chance(40) {
 			nd.Shared = sh
 		}
+		if r.Chance(25) {
+			nd.MM = map[string]map[string]int{"a": sh, "b": sh}
+			if r.Chance(40) {
+				nd.MM["b"] = map[string]int{"y": 2}
+			}
+		}
 		if r.Chance(20) {
 			nd.Tags = []string{"t"}
 		}
@@ -559,7 +578,145 @@ type c03Line struct {
 	Dist       []string  `json:"dist,omitempty"`
 }
 
+// ---------- nodes stored by value (struct field, slice arena) with references into them ----------
+//
+// The heap model has no interior pointers, so this stream is judged by a direct oracle only.  The
+// copier registers a by-value node when it starts copying it, so a reference is preserved when its
+// target's copy has started before the reference is met: the generator only makes such references
+// (a node refers to itself, to the head, or to arena nodes at or before its own index; the tail
+// slice, copied last, refers to anything).
+type INode struct {
+	Name   string
+	Next   *INode
+	Peers  []*INode
+	ByName map[string]*INode
+}
+
+type ICfg struct {
+	Head  INode
+	Arena []INode
+	Tail  []*INode
+}
+
+func c03Interior(r *RNG, idx int) c03Line {
+	line := c03Line{Idx: idx, Dist: []string{"via/interior-oracle"}}
+	n := r.Intn(5)
+	in := &ICfg{Arena: make([]INode, n, n+r.Intn(2))}
+	in.Head.Name = "head"
+	node := func(i int) *INode {
+		if i < 0 {
+			return &in.Head
+		}
+		return &in.Arena[i]
+	}
+	fill := func(self int) {
+		x := node(self)
+		pick := func() *INode {
+			if r.Chance(20) {
+				return nil
+			}
+			return node(r.Intn(self+2) - 1) // -1 (head) .. self
+		}
+		if self < 0 {
+			pick = func() *INode {
+				if r.Chance(30) {
+					return nil
+				}
+				return &in.Head
+			}
+		}
+		if r.Chance(60) {
+			x.Next = pick()
+		}
+		if r.Chance(60) {
+			k := 1 + r.Intn(3)
+			x.Peers = make([]*INode, k)
+			for j := range x.Peers {
+				x.Peers[j] = pick()
+			}
+		}
+		if r.Chance(40) {
+			x.ByName = map[string]*INode{"a": pick(), "self": x}
+		}
+	}
+	fill(-1)
+	for i := 0; i < n; i++ {
+		in.Arena[i].Name = fmt.Sprintf("n%d", i)
+		fill(i)
+	}
+	for k := r.Intn(4); k > 0; k-- {
+		in.Tail = append(in.Tail, node(r.Intn(n+1)-1))
+	}
+	idxOf := func(c *ICfg, p *INode) int {
+		switch {
+		case p == nil:
+			return -2
+		case p == &c.Head:
+			return -1
+		}
+		for j := range c.Arena {
+			if p == &c.Arena[j] {
+				return j
+			}
+		}
+		return -3 // a node outside the value: a detached duplicate
+	}
+	render := func(c *ICfg) string {
+		var b strings.Builder
+		one := func(x *INode) {
+			fmt.Fprintf(&b, "%s next=%d peers=[", x.Name, idxOf(c, x.Next))
+			for _, p := range x.Peers {
+				fmt.Fprintf(&b, "%d ", idxOf(c, p))
+			}
+			b.WriteString("] byname={")
+			keys := make([]string, 0, len(x.ByName))
+			for k := range x.ByName {
+				keys = append(keys, k)
+			}
+			sort.Strings(keys)
+			for _, k := range keys {
+				fmt.Fprintf(&b, "%s:%d ", k, idxOf(c, x.ByName[k]))
+			}
+			b.WriteString("}; ")
+		}
+		one(&c.Head)
+		for j := range c.Arena {
+			one(&c.Arena[j])
+		}
+		b.WriteString("tail=[")
+		for _, p := range c.Tail {
+			fmt.Fprintf(&b, "%d ", idxOf(c, p))
+		}
+		b.WriteString("]")
+		return b.String()
+	}
+	before := render(in)
+	cs := map[string]any{"via": "VerifDeepCopy (nodes stored by value)", "graph": before}
+	line.Canon = "interior " + before
+	line.Sample = cs
+	line.Nontrivial = n >= 1 && strings.Contains(before, "-1")
+	var out *ICfg
+	pn := catch(func() { out = dials.VerifDeepCopy(reflect.ValueOf(in)).Interface().(*ICfg) })
+	if pn != "" {
+		line.Findings = append(line.Findings, Finding{Kind: "violation", What: "copy failed: " + pn, Case: cs})
+		return line
+	}
+	if after := render(out); after != before {
+		line.Findings = append(line.Findings, Finding{Kind: "violation", What: "references to nodes stored by value (struct field / slice arena) that were identical in the input are not identical in the copy (-3 = a detached duplicate node)", Case: cs, Expected: before, Observed: after})
+	}
+	if out == in || (n > 0 && &out.Arena[0] == &in.Arena[0]) {
+		line.Findings = append(line.Findings, Finding{Kind: "violation", What: "the copy shares its by-value nodes with the input", Case: cs})
+	}
+	if render(in) != before {
+		line.Findings = append(line.Findings, Finding{Kind: "violation", What: "the input was modified", Case: cs})
+	}
+	return line
+}
+
 func c03Case(drv *Driver, r *RNG, idx int) c03Line {
+	if r.Chance(10) {
+		return c03Interior(r, idx)
+	}
 	line := c03Line{Idx: idx}
 	viaConfig := r.Chance(35)
 	var in reflect.Value
